@@ -419,6 +419,8 @@ class Interp:
 
     # ------------------------------------------------------------ memory
     def do_load(self, p, bits, cond, align, what, loc=None, suppressed=False):
+        if T.is_zero(cond):
+            return T.undef(bits)        # infeasible path: no access happens
         base, off = split_addr(p)
         size = (bits + 7) // 8
         self._S.accesses.append(Access("r", base, off, size, cond, None, align, suppressed, what, loc))
@@ -447,6 +449,8 @@ class Interp:
         return T.mem(base, off, bits)
 
     def do_store(self, p, v, cond, align, what, loc=None, suppressed=False):
+        if T.is_zero(cond):
+            return
         base, off = split_addr(p)
         size = (v[1] + 7) // 8
         self._S.accesses.append(Access("w", base, off, size, cond, v, align, suppressed, what, loc))
